@@ -46,6 +46,9 @@ type stsPlan struct {
 	// The same manifest installed in two namespaces gives two StatefulSets with equal names and selectors.
 	NS       string `json:"ns,omitempty"`
 	PodLabel string `json:"podLabel,omitempty"`
+	// RollBack[k]: the roll-out going on in cycle k+1 is one that is being undone: the update revision is the
+	// current revision again while some pods still run the abandoned one (updatedReplicas < replicas)
+	RollBack []bool `json:"rollBack,omitempty"`
 }
 
 type coordCase struct {
@@ -266,6 +269,10 @@ func execCoord(c *coordCase, only int) *coordObs {
 			}
 			n := int32(s.Pods)
 			set.Status.Replicas, set.Status.UpdatedReplicas, set.Status.ReadyReplicas = n, n, n
+			set.Status.CurrentRevision, set.Status.UpdateRevision = s.Name+"-7d9f", s.Name+"-7d9f"
+			if strings.HasPrefix(s.States[k-1], "rolling") && !(k-1 < len(s.RollBack) && s.RollBack[k-1]) {
+				set.Status.UpdateRevision = s.Name + "-5c4b"
+			}
 			switch s.States[k-1] {
 			case "rolling":
 				set.Status.UpdatedReplicas = n - 1
@@ -381,6 +388,9 @@ func runCoord(c *coordCase) (vs []vkit.Violation, classes []string) {
 			switch s.States[k-1] {
 			case "rolling", "rolling-notready":
 				classes = append(classes, "coord/rolling-update-cycle")
+				if k-1 < len(s.RollBack) && s.RollBack[k-1] {
+					classes = append(classes, "coord/roll-out-being-undone")
+				}
 				if s.States[k-1] == "rolling-notready" {
 					waited := false
 					for q := 0; q < k; q++ {
@@ -464,6 +474,7 @@ func genCoord(t *rapid.T) *coordCase {
 				st = s.States[k-1] // a slow roll-out stays what it is for a while
 			}
 			s.States = append(s.States, st)
+			s.RollBack = append(s.RollBack, strings.HasPrefix(st, "rolling") && rapid.IntRange(0, 2).Draw(t, fmt.Sprintf("rollBack%d-%d", i, k)) == 0)
 		}
 		c.Sets = append(c.Sets, s)
 	}
